@@ -158,10 +158,19 @@ func (r *rlocker) Unlock() { (*RWMutex)(r).RUnlock() }
 type Cond struct {
 	L       Locker
 	waiters []*Task
+	real    *sync.Cond // used outside a simulation (translation smoke test)
 }
 
 // NewCond returns a new Cond with Locker l.
-func NewCond(l Locker) *Cond { return &Cond{L: l} }
+func NewCond(l Locker) *Cond {
+	c := &Cond{L: l}
+	if m, ok := l.(*Mutex); ok {
+		c.real = sync.NewCond(&m.real)
+	} else {
+		c.real = sync.NewCond(l)
+	}
+	return c
+}
 
 //go:norace
 func (c *Cond) enqueue() *Task {
@@ -182,7 +191,8 @@ func (c *Cond) park(me *Task) {
 // waiter is registered before the lock is released.
 func (c *Cond) Wait() {
 	if !Active() {
-		panic("simrt.Cond.Wait outside a simulation")
+		c.real.Wait()
+		return
 	}
 	me := c.enqueue()
 	if m, ok := c.L.(*Mutex); ok {
@@ -200,6 +210,7 @@ func (c *Cond) Wait() {
 //go:norace
 func (c *Cond) Signal() {
 	if !Active() {
+		c.real.Signal()
 		return
 	}
 	if len(c.waiters) > 0 {
@@ -217,6 +228,7 @@ func (c *Cond) Signal() {
 //go:norace
 func (c *Cond) Broadcast() {
 	if !Active() {
+		c.real.Broadcast()
 		return
 	}
 	for _, t := range c.waiters {
